@@ -116,6 +116,7 @@ cat_status eng_trigger(int ci, cat_cmd_type t)
         bool room = EV_WAITING < QCAP;
         if (s == CAT_STATUS_ERROR_MUTEX_UNLOCK && MX_FAIL_UNLOCK_AT >= 0 && MX_UNLOCKS == MX_FAIL_UNLOCK_AT + 1) { s = room ? CAT_STATUS_OK : CAT_STATUS_ERROR_BUFFER_FULL; CNT("triggers_with_an_injected_unlock_failure"); }      /* the injected fault changes the return value only (C16): the event is queued if there was room */
         if (room && s != CAT_STATUS_OK) viol("C13", "refused-with-room", "trigger refused (%d) with %ld of %d waiting", (int)s, EV_WAITING, QCAP);
+        if (room && s != CAT_STATUS_OK && (HOLD_PHASE == 1 || HOLD_PHASE == 2) && !taint_hold) viol("C14", "event-refused-during-hold", "a trigger was refused (%d) with %ld of %d events waiting while a command is suspended (hold phase %d)", (int)s, EV_WAITING, QCAP, HOLD_PHASE);
         if (!room && s != CAT_STATUS_ERROR_BUFFER_FULL) viol("C13", "accepted-when-full", "trigger returned %d with %ld of %d waiting", (int)s, EV_WAITING, QCAP);
         if (s == CAT_STATUS_OK) { EV_WAITING++; CNT("events_accepted"); if (evq_n < 32) { evq[evq_n].ci = ci; evq[evq_n].type = (int)t; evq_n++; } } else CNT("events_refused");
         return s;
@@ -203,6 +204,7 @@ void eng_hold_exit(cat_status st)
         if (HOLD_PHASE == 1) {
                 if (s != CAT_STATUS_OK) viol("C14", "release-refused", "cat_hold_exit during a hold returned %d", (int)s);
                 HOLD_PHASE = 2; hold_statuses |= (st == CAT_STATUS_OK) ? 1 : 2; releases_api++; hold_paths |= 1; CNT("releases_by_api");
+                if (PHASE == 0 && stim_on && chance(40)) { eng_trigger((int)rn(W.ncmds), chance(50) ? CAT_CMD_TYPE_READ : CAT_CMD_TYPE_TEST); CNT("triggers_between_a_release_request_and_the_next_service_call"); }      /* the command is still suspended: events are accepted as before */
         } else if (HOLD_PHASE == 2) {
                 /* a second request before the first one has been consumed: whether the command still counts as held in this window is left open
                  * by the properties (DESIGN 3.2), so both answers are accepted; an accepted request may replace the status */
@@ -244,6 +246,10 @@ void eng_after_service(cat_status s)
         }
         cat_status b = cat_is_busy(W.at);
         CNT("is_busy_samples");
+        if (MX_FAIL_LOCK_AT < 0 && MX_FAIL_UNLOCK_AT < 0) {      /* no injected mutex fault: the two queries answer, they do not fail */
+                if (b != CAT_STATUS_OK && b != CAT_STATUS_BUSY) viol("C18", "is-busy-status", "cat_is_busy returned %d (neither OK nor BUSY)", (int)b);
+                if (!taint_hold) { cat_status hq2 = cat_is_hold(W.at); if (hq2 != CAT_STATUS_OK && hq2 != CAT_STATUS_HOLD) viol("C18", "is-hold-status", "cat_is_hold returned %d (neither OK nor HOLD)", (int)hq2); }
+        }
         if (b == CAT_STATUS_OK) {
                 CNT("is_busy_idle_answers");
                 if (PA.st != 0 || PU.st != 0) viol("C18", "idle-with-open-unit", "cat_is_busy returned OK while a unit of producer %c is partially emitted", PA.st ? 'A' : 'U');
@@ -303,7 +309,7 @@ void eng_monitors_install(void)
 {
         ON_READ = on_read; ON_WRITE = on_write; ON_UNIT = on_unit; ON_PHASE = on_phase; ON_READ_REFUSED = on_read_refused;
         POLICY = eng_policy; VPOLICY = eng_vpolicy;
-        evq_n = 0; ev_cur_ci = -1;
+        evq_n = 0; ev_cur_ci = -1; stim_on = false;
         HOLD_PHASE = 0; EV_WAITING = 0; EV_INPROGRESS = false; LINES_DONE = 0; line_nonblank = false; taint_hold = false;
         chain_budget[0] = chain_budget[1] = CHAIN_BUDGET; owed_set[0] = owed_set[1] = false; hold_statuses = 0; pend_retry[0] = pend_retry[1] = -1;
         holds_seen = holds_with_input = releases_api = releases_event = 0;
